@@ -19,3 +19,4 @@ import Evenio.Model.Gates
 import Evenio.Model.Inv
 import Evenio.Model.ParIter
 import Evenio.Model.InvPlus
+import Evenio.Model.BitSet
